@@ -21,8 +21,12 @@ use vcommon::report::Reporter;
 
 const KINDS: [&str; 8] = ["RegisterPublisher", "RegisterSubscriber", "RegisterReplier", "RegisterRequestor", "Message", "BatchMessage", "Error", "Ok"];
 
+/// the largest payload-carrying frames still fit the 1 MiB limit with this body length
+const BIG: usize = 1024 * 1024 - 64;
+
 fn frame_of(kind: &str, topic: &TopicName, size: usize) -> Frame {
-    let body = Bytes::from(vec![b'h'; size]);
+    // big bodies are made of bytes that are long when printed or escaped
+    let body = Bytes::from(vec![if size >= BIG { 0xffu8 } else { b'h' }; size]);
     match kind {
         "RegisterPublisher" => Frame::RegisterPublisher(PublisherPayload { topic: topic.clone(), retention_policy: 0, operations: vec![] }),
         "RegisterSubscriber" => Frame::RegisterSubscriber(SubscriberPayload { topic: topic.clone(), retention_policy: 0, operations: vec![] }),
@@ -119,8 +123,8 @@ async fn reqrep_round_trip(addr: SocketAddr, set: &CertSet, topic: &str, existin
     }
 }
 
-async fn first_frame_cell(addr: SocketAddr, set: Arc<CertSet>, kind: String, existing: String, cellid: u64) -> Result<String, Fail> {
-    let class = format!("first={kind}:topic={existing}");
+async fn first_frame_cell(addr: SocketAddr, set: Arc<CertSet>, kind: String, existing: String, big: bool, cellid: u64) -> Result<String, Fail> {
+    let class = format!("first={kind}{}:topic={existing}", if big { "(at-limit)" } else { "" });
     let setup = |what: &str, e: String| fail("setup", what, format!("{what}: {e}"));
     let topic = format!("/c11ns/cell{cellid}");
     let tn = TopicName::try_from(topic.as_str()).unwrap();
@@ -145,7 +149,7 @@ async fn first_frame_cell(addr: SocketAddr, set: Arc<CertSet>, kind: String, exi
         }
         _ => {}
     }
-    let (mut s, first) = raw.register(frame_of(&kind, &tn, 3)).await.map_err(|e| fail("unanswered", &class, format!("first frame {kind} on a {existing} topic: {e}")))?;
+    let (mut s, first) = raw.register(frame_of(&kind, &tn, if big { BIG } else { 3 })).await.map_err(|e| fail("unanswered", &class, format!("first frame {kind} on a {existing} topic: {e}")))?;
     let want = pattern_of(&kind);
     let compatible = want != "none" && (existing == "fresh" || existing == want);
     let tag;
@@ -451,6 +455,11 @@ fn cells(tier: &str) -> Vec<Value> {
         for kind in KINDS {
             v.push(json!({"cell": id, "family": "first-frame", "first_frame": kind, "topic_state": existing}));
             id += 1;
+            // the same with a payload at the frame limit (whatever the server echoes or logs about it)
+            if matches!(kind, "Message" | "BatchMessage" | "Error") && (tier == "thorough" || existing == "fresh") {
+                v.push(json!({"cell": id, "family": "first-frame", "first_frame": kind, "topic_state": existing, "size": "at-limit"}));
+                id += 1;
+            }
         }
     }
     for role in ["publisher", "requestor", "replier"] {
@@ -489,7 +498,7 @@ pub async fn run(tier: &str, replaying: bool) -> ! {
         async move {
             let id = c["cell"].as_u64().unwrap();
             let r = match c["family"].as_str().unwrap() {
-                "first-frame" => first_frame_cell(addr, set, c["first_frame"].as_str().unwrap().into(), c["topic_state"].as_str().unwrap().into(), id).await,
+                "first-frame" => first_frame_cell(addr, set, c["first_frame"].as_str().unwrap().into(), c["topic_state"].as_str().unwrap().into(), c["size"].as_str() == Some("at-limit"), id).await,
                 "racing-first-registrations" => race_cell(addr, set, c["mixed_patterns"].as_bool().unwrap(), c["trials"].as_u64().unwrap() as usize, id).await,
                 "follow-up" => followup_cell(addr, set, c["role"].as_str().unwrap().into(), c["frame"].as_str().unwrap().into(), c["size"].as_str().unwrap().into(), id).await,
                 _ => client_cell(set, c["stream"].as_str().unwrap().into(), c["server_answer"].as_str().unwrap().into()).await,
@@ -502,7 +511,7 @@ pub async fn run(tier: &str, replaying: bool) -> ! {
     finish(
         rep,
         outs,
-        "first-frame: each of the 8 frame kinds as the first frame of a stream on a topic that is fresh / already pub/sub / already request/reply (24 cells): the stream must be served in its role (exercised with helper peers) or refused with an error frame carrying a code - never Ok followed by abandonment, never a silent close; follow-up: a registered publisher / requestor / replier sends each of the 8 kinds once (small; Message also at the size that fits 1 MiB only before the routing tag; thorough: zero/at-limit for payload-carrying kinds); client-open: the real client's open() for each of the 4 stream kinds against a fake server answering the registration with each of the 8 kinds or closing. After every server-side cell a well-behaved real client must complete a round trip on the same topic. racing-first-registrations (auxiliary, schedules SAMPLED by repetition, not enumerated): 4 raw peers on separate connections open the first streams of a fresh topic simultaneously (same pattern, or two of each pattern), 8 cells x 40 (150) trials; everyone answered Ok must be served",
+        "first-frame: each of the 8 frame kinds as the first frame of a stream on a topic that is fresh / already pub/sub / already request/reply (24 cells, plus the payload-carrying kinds with a 1 MiB - 64 B body of 0xff bytes): the stream must be served in its role (exercised with helper peers) or refused with an error frame carrying a code - never Ok followed by abandonment, never a silent close; follow-up: a registered publisher / requestor / replier sends each of the 8 kinds once (small; Message also at the size that fits 1 MiB only before the routing tag; thorough: zero/at-limit for payload-carrying kinds); client-open: the real client's open() for each of the 4 stream kinds against a fake server answering the registration with each of the 8 kinds or closing. After every server-side cell a well-behaved real client must complete a round trip on the same topic. racing-first-registrations (auxiliary, schedules SAMPLED by repetition, not enumerated): 4 raw peers on separate connections open the first streams of a fresh topic simultaneously (same pattern, or two of each pattern), 8 cells x 40 (150) trials; everyone answered Ok must be served",
         "hostile inputs enumerated exhaustively over frame kinds x topic states x roles",
         json!({}),
         replaying,
